@@ -290,6 +290,13 @@ def contract(target, props=(), **kw):
     return deco
 
 
+def inductive(fn):
+    """ a spec function defined by recursion on its first (integer) parameter.  Natively it is just the recursive function; the
+        symbolic executor treats an application with a symbolic first argument as an uninterpreted function and adds the defining
+        equation unfolded once at that argument (what an inductive step needs) """
+    return fn
+
+
 def lemma(props=(), **kw):
     """ a property of spec functions only: class with `args` and `claim(...)` """
     def deco(cls):
@@ -585,7 +592,7 @@ def ceil(x):
 
 
 NATIVE_NAMES = ['Outcome', 'Dom', 'NONE_T', 'BOOL', 'INT', 'FLOAT', 'STR', 'ERR', 'DATE', 'NUMBER', 'NUMBERB', 'SCALAR',
-                'HOSTOBJ', 'EXC', 'ANY', 'VALUE_T', 'SEQ', 'ARGS', 'CONST', 'CHOICE', 'TUPLE', 'LISTN', 'OBJECT', 'HOSTFN', 'DDICT', 'choice', 'ddict', 'listener', 'has_attr', 'get_attr', 'is_closure', 'SYMMAP', 'SYMMAP_LISTS', 'OMITTED', 'host_calls', 'emits', 'setter_values', 'registry_has', 'registry_fn', 'map_has', 'map_get', 'PROD', 'str_of_symbol', 'called', 'callee_outcomes', 'calls', 'call_result', 'result_of', 'contract',
+                'HOSTOBJ', 'EXC', 'ANY', 'VALUE_T', 'SEQ', 'ARGS', 'CONST', 'CHOICE', 'TUPLE', 'LISTN', 'OBJECT', 'HOSTFN', 'DDICT', 'choice', 'ddict', 'listener', 'has_attr', 'get_attr', 'is_closure', 'SYMMAP', 'SYMMAP_LISTS', 'OMITTED', 'host_calls', 'emits', 'setter_values', 'registry_has', 'registry_fn', 'map_has', 'map_get', 'PROD', 'str_of_symbol', 'called', 'callee_outcomes', 'inductive', 'calls', 'call_result', 'result_of', 'contract',
                 'lemma', 'is_none', 'is_bool', 'is_int', 'is_float', 'is_num', 'is_numb', 'is_str', 'is_err', 'is_date',
                 'is_list', 'is_obj', 'same', 'truthy', 'implies', 'raises', 'raise_err', 'forall', 'exists', 'flat', 'collapse_spaces', 'replace_kth', 'first_error', 'numeric_items', 'stat', 'wildcard_match', 'acot', 'acoth', 'cot', 'col_value', 'col_label', 'is_cell_label', 'is_digits', 'label_parts', 'parsed_label', 'parity_true', 'xl_type', 'date_us', 'date_from_us', 'dateutil_parse',
                 'int_of_text', 'text_is_int', 'float_of_text', 'text_is_float', 'errmsg', 'is_canonical', 'real',
